@@ -26,6 +26,7 @@ RULE = ('case = scenario (operator form out of 16: convert with callable / '
         'x 3 policies x policy given as argument vs taken from '
         'petl.config.failonerror at construction. Non-trivial: n >= 1. '
         'Distinct: by digest of the scenario.')
+STATES = 'operator form x number of rows x exception class x consumers'
 COMPONENTS = {
     'real': ['petl convert/convertall/convertnumbers/format*/interpolate*/'
              'fieldmap/rowmap/rowmapmany and petl.config.failonerror'],
@@ -599,6 +600,8 @@ def run_case(case):
                            'lazy-failing-rowmapper': int(
                                bool(case.get('lazy')) and form == 'rowmap')},
                    fired={'callback-raise': fired}, nontrivial=n >= 1,
+                   states=['%s:%d:%s:%d' % (form, n, case.get('exc_kind'),
+                                            case['consumers'])],
                    extra={'group': form})
 
 
